@@ -92,3 +92,47 @@ fn server_limits_hold_on_the_wire_with_aliases() {
     for f in &fails { println!("BOUNDED-FAIL server_limits_hold_on_the_wire_with_aliases {}", f); }
     assert!(fails.is_empty());
 }
+
+/// C17 across connections: "bindings never survive a reconnect" and "alias within the server's Topic Alias Maximum" - where an ABSENT
+/// Topic Alias Maximum in CONNACK means 0 (OASIS 3.2.2.3.8). Two connections; the second CONNACK announces {absent, 0, 1, 2}; the
+/// server-side table is rebuilt from the wire of each connection only.
+#[test]
+fn outbound_aliases_never_survive_a_reconnect() {
+    let topics = ["tele/a", "tele/b"];
+    let mut cases = 0u64; let mut fails: Vec<String> = Vec::new();
+    for first_max in [1u16, 2, 4] { for second_max in [None, Some(0u16), Some(1), Some(2)] { for resolver in 0..2u8 { for session in [false, true] {
+        for seq1 in [vec![0usize], vec![0, 1], vec![0, 0, 1]] { for seq2 in [vec![0usize], vec![1, 0], vec![0, 1, 0]] {
+            cases += 1;
+            let r = (|| -> Result<(), String> {
+                let cfg = Cfg { policy: OfflineQueuePolicy::PreserveAll, drain: PostReconnectQueueDrainPolicy::None, mode: ProtocolMode::Mqtt5, retries: None, keep_alive: None, ack_timeout: None };
+                let factory = if resolver == 0 { OutboundAliasResolverFactory::new_lru_factory(4) } else { OutboundAliasResolverFactory::new_manual_factory() };
+                let mut h = H::new_with_resolver(cfg, Some((factory)()));
+                for (conn, (max, seq)) in [(Some(first_max), &seq1), (second_max, &seq2)].iter().enumerate() {
+                    h.open().map_err(|e| format!("open {:?}", e))?; h.service(4096).unwrap(); h.write_completion().unwrap();
+                    h.deliver(MqttPacket::Connack(ConnackPacket { session_present: conn == 1 && session, topic_alias_maximum: *max, ..Default::default() }), 1 << 20).map_err(|e| format!("connack {:?}", e))?;
+                    let limit = max.unwrap_or(0);
+                    let mut server: HashMap<u16, String> = HashMap::new();
+                    for (i, t) in seq.iter().enumerate() {
+                        let topic = topics[*t];
+                        let before = h.sent_this_connection.len();
+                        if resolver == 1 { h.submit_publish_with_alias(topic, QualityOfService::AtMostOnce, 4, Some(1 + *t as u16)); } else { h.submit_publish(topic, QualityOfService::AtMostOnce, 4); }
+                        h.service(4096).map_err(|e| format!("service {:?}", e))?;
+                        if h.ps.pending_write_completion { h.write_completion().map_err(|e| format!("wc {:?}", e))?; }
+                        for p in h.sent_this_connection[before..].iter() { if let MqttPacket::Publish(p) = &**p {
+                            if let Some(a) = p.topic_alias { if a == 0 || a > limit { return Err(format!("connection {} publish {}: alias {} although the server's Topic Alias Maximum is {:?}", conn + 1, i, a, max)); } }
+                            let seen = if p.topic.is_empty() { match p.topic_alias.and_then(|a| server.get(&a)) { Some(s) => s.clone(), None => return Err(format!("connection {} publish {}: empty topic with alias {:?} that was never bound on THIS connection", conn + 1, i, p.topic_alias)) } }
+                                       else { if let Some(a) = p.topic_alias { server.insert(a, p.topic.clone()); } p.topic.clone() };
+                            if seen != topic { return Err(format!("connection {} publish {}: server reconstructs {:?}, application published to {:?}", conn + 1, i, seen, topic)); }
+                        } }
+                    }
+                    h.close().map_err(|e| format!("close {:?}", e))?;
+                }
+                Ok(())
+            })();
+            if let Err(e) = r { if fails.len() < 20 { fails.push(format!("first max {} second max {:?} resolver {} session_present {} seq1 {:?} seq2 {:?} :: {}", first_max, second_max, if resolver == 0 { "LRU" } else { "manual" }, session, seq1, seq2, e)); } }
+        } }
+    } } } }
+    println!("BOUNDED outbound_aliases_never_survive_a_reconnect cases={} bound=two connections: first Topic Alias Maximum {{1,2,4}}, second {{absent,0,1,2}} x LRU/manual resolver x session present/absent x 3x3 topic sequences over 2 topics; server table rebuilt per connection from the wire", cases);
+    for f in &fails { println!("BOUNDED-FAIL outbound_aliases_never_survive_a_reconnect {}", f); }
+    assert!(fails.is_empty());
+}
